@@ -1,6 +1,6 @@
 From Coq Require Import ZArith List Bool Reals Lra.
 From Flocq Require Import Core BinarySingleNaN.
-Require Import GV.FloatBase GV.FloatLemmas GV.AngleM GV.AngleProofs GV.GeonumM GV.GeonumProofs GV.TraitsM GV.NewProofs GV.CtorProofs GV.PiBounds GV.TrigProofs GV.DotValue GV.DistValue.
+Require Import GV.FloatBase GV.FloatLemmas GV.AngleM GV.AngleProofs GV.GeonumM GV.GeonumProofs GV.TraitsM GV.NewProofs GV.CtorProofs GV.PiBounds GV.TrigProofs GV.DotValue GV.DistValue GV.DirProofs GV.SymProofs.
 Open Scope R_scope.
 Require Import GV.Properties.C13.
 Check C13_distance_encoding : forall (L : libm) a b,
@@ -29,3 +29,12 @@ Check C13_distance_value : forall (L : libm) (u : R) a b, cos_acc L u -> u <= / 
 Print Assumptions C13_distance_value.
 Check C13_radicand_def : forall (L : libm) a b, mag (distance_to L a b) = fabs (fsqrt (fmax (dist_sq L a b) zero)).
 Print Assumptions C13_radicand_def.
+Check C13_symmetry : forall (L : libm) (u : R) a b, cos_acc L u -> u <= / 1000 ->
+  canonp (rem (ang a)) -> canonp (rem (ang b)) -> (0 <= blade (ang a))%Z -> (0 <= blade (ang b))%Z ->
+  fin (dist_sq L a b) -> fin (dist_sq L b a) ->
+  let S := R_ (mag a) * R_ (mag a) + R_ (mag b) * R_ (mag b) in
+  let D := S - 2 * R_ (mag a) * R_ (mag b) * cos (dir (ang b) - dir (ang a)) in
+  let Bnd := S * (u + 10003 / 100000000000000) + 10 * bpow radix2 (-1075) in
+  Rabs (R_ (mag (distance_to L a b)) - R_ (mag (distance_to L b a)))
+    <= 2 * (sqrt Bnd * (1 + / 9007199254740992) + / 9007199254740992 * sqrt D + bpow radix2 (-1075)).
+Print Assumptions C13_symmetry.
